@@ -286,6 +286,7 @@ func run(s *kernel.Sim, c *scen.Case) {
 	// handshake digests differ per direction.
 	preamble := []byte("cleartext-preamble")
 	var D [][]byte
+	var afterErr [][]byte // complete messages returned by reads made after the first receive error
 	var partial []byte // frame data handed out for a message that did not complete
 	var recvErr error
 	backMsg := []byte("from-B-to-A")
@@ -358,6 +359,19 @@ func run(s *kernel.Sim, c *scen.Case) {
 				m, err := sb.ReceiveCompleteMessage(ctx)
 				if err != nil {
 					recvErr = err
+					// an application that keeps reading after the error must still see nothing but
+					// the in-order continuation of what was sent (a rejected frame must not use up
+					// its place, letting later frames through)
+					for k := 0; k < 4; k++ {
+						m2, err2 := sb.ReceiveCompleteMessage(ctx)
+						if err2 != nil {
+							if k > 0 {
+								break
+							}
+							continue
+						}
+						afterErr = append(afterErr, m2)
+					}
 					return
 				}
 				D = append(D, m)
@@ -481,6 +495,13 @@ func run(s *kernel.Sim, c *scen.Case) {
 		i := len(D)
 		if i >= len(S) || !bytes.HasPrefix(S[i], partial) {
 			s.Violate("altered-frame-data-delivered", sig, fmt.Sprintf("frame data %q handed out for message %d is not a prefix of what was sent", partial, i))
+			return
+		}
+	}
+	for i, d := range afterErr {
+		k := len(D) + i
+		if k >= len(S) || !bytes.Equal(d, S[k]) {
+			s.Violate("delivered-out-of-order-after-error", sig, fmt.Sprintf("after the receive error (%v) a further read returned %q, which is not message %d of what was sent: what the application got is no longer an in-order prefix", recvErr, d, k))
 			return
 		}
 	}
